@@ -292,6 +292,10 @@ func matchRecord(rpc string, km *keyModel, r record, t obsTreasure) (record, *vi
 	if len(t.Vals) == 1 {
 		ov = t.Vals[0]
 	}
+	if ov.K == kSlice && len(dedupe(ov.L)) != len(ov.L) {
+		// KeyValuePair.Uint32Slice: "deduplicated automatically by HydrAIDE: each number can only exist once"
+		return r, &viol{fmt.Sprintf("read:%s:slice-holds-duplicates%s", rpc, provSuffix(km)), fmt.Sprintf("key %s: %s returned a uint32 set with repeated members: %s (model %s)", t.Key, rpc, t, r.Val)}
+	}
 	if !valueEqual(r.Val, ov) {
 		mk, ok := r.Val.K, ov.K
 		if r.Val.emptyish() && ov.emptyish() {
@@ -366,7 +370,14 @@ func (m *model) readKey(rpc string, sm *swampModel, key string, found *obsTreasu
 		if obsAbsent {
 			km.wild, km.cands = false, []kstate{{Absent: true}}
 		} else if !keysOnly && len(found.Vals) <= 1 {
-			km.wild, km.cands = false, []kstate{{R: recordFromObs(*found)}}
+			r := recordFromObs(*found)
+			km.wild, km.cands = false, []kstate{{R: r}}
+			if len(found.Vals) == 0 {
+				// no value field on the wire: a void value or an empty uint32 set
+				r2 := r
+				r2.Val = value{K: kSlice}
+				km.cands = append(km.cands, kstate{R: r2})
+			}
 		}
 		return nil
 	}
@@ -391,22 +402,30 @@ func (m *model) readKey(rpc string, sm *swampModel, key string, found *obsTreasu
 	})
 }
 
-// groupByKey indexes a treasure list; duplicates and unknown keys are violations.
+// groupByKey indexes a treasure list. A key may come back as often as the request named it
+// (what a repeated key in a key list means is not documented); more often, or a key that is not
+// eligible, is a violation. All copies of a key must be identical.
 func groupByKey(rpc string, ts []obsTreasure, allowed []string) (map[string]*obsTreasure, *viol) {
+	mult := map[string]int{}
+	for _, a := range allowed {
+		mult[a]++
+	}
 	out := map[string]*obsTreasure{}
+	seen := map[string]int{}
 	for i := range ts {
 		t := &ts[i]
-		ok := false
-		for _, a := range allowed {
-			if a == t.Key {
-				ok = true
-			}
-		}
-		if !ok {
+		if mult[t.Key] == 0 {
 			return nil, &viol{fmt.Sprintf("read:%s:unrequested-key", rpc), fmt.Sprintf("%s returned key %q which is not among the eligible keys %v", rpc, t.Key, allowed)}
 		}
-		if out[t.Key] != nil {
-			return nil, &viol{fmt.Sprintf("read:%s:duplicate-key", rpc), fmt.Sprintf("%s returned key %q twice", rpc, t.Key)}
+		seen[t.Key]++
+		if seen[t.Key] > mult[t.Key] {
+			return nil, &viol{fmt.Sprintf("read:%s:duplicate-key", rpc), fmt.Sprintf("%s returned key %q %d times, requested %d times", rpc, t.Key, seen[t.Key], mult[t.Key])}
+		}
+		if prev := out[t.Key]; prev != nil {
+			if !reflect.DeepEqual(*prev, *t) {
+				return nil, &viol{fmt.Sprintf("read:%s:copies-differ", rpc), fmt.Sprintf("%s returned key %q twice with different content: %s / %s", rpc, t.Key, *prev, *t)}
+			}
+			continue
 		}
 		out[t.Key] = t
 	}
@@ -474,7 +493,9 @@ var unspecifiedPoints = []string{
 	"unspecified: after any of the unspecified situations above a key stays 'loose' until the next definite write: reads pin what is visible, but an identical Set may answer UPDATED and an eviction makes the key unconstrained again (whether the visible state had been persisted is part of what is unspecified)",
 	"unspecified: arithmetic overflow of an Increment (any answer accepted, key becomes unconstrained)",
 	"unspecified: Uint32SliceDelete that removes the last value — proto says the key is preserved, the SDK says the empty treasure (and an empty swamp) is removed; both accepted; Uint32SliceDelete on a non-slice key may fail or be a no-op but must not change the key",
-	"unspecified: order of values in a uint32 set after deletions (compared as a set); order and duplicates in multi-key answers",
+	"unspecified: order of values in a uint32 set (the SDK documents append order for pushes only; compared as a set, repeated members are a violation); order of multi-key answers",
+	"unspecified: a key named several times in one key list (Get, GetByKeys, Delete, AreKeysExist, ShiftByKeys) — it may be answered once or once per occurrence; for Delete at least one DELETED is demanded for an existing key, the other statuses are free",
+	"unspecified: Uint32SlicePush with an empty value list on a missing key (key created empty or not); Uint32SliceDelete with an empty list is a no-op",
 	"unspecified: error codes — only the presence of an error is checked, except FailedPrecondition for missing swamps",
 	"in-memory swamps: data is demanded lost only after a virtual sleep of more than 3x CloseAfterIdle and demanded intact when the sleeps since the start/last eviction sum to less than CloseAfterIdle; nothing in between is generated",
 	"every-request-returns is decided in bounded-progress form: a request not finished at the first quiescent point is a hang unless its goroutine waits for the clock (then up to 300 virtual seconds are granted)",
